@@ -42,7 +42,8 @@ impl Clock for RealTimeClock {
 pub struct GenericTokenBucket(TokenCount);
 
 impl GenericTokenBucket {
-    const MAX_TOKENS: u32 = 100;
+    // Must be at least the minimum cost charged per reply (200), or nothing is ever granted.
+    const MAX_TOKENS: u32 = 1000;
     const TOKENS_PER_SECOND: u32 = 2;
 
     pub const fn new() -> Self {
